@@ -23,7 +23,6 @@ from jax2onnx.plugins._post_check_onnx_graph import expect_graph as EG
 from jax2onnx.plugins.jax.numpy._common import get_orig_impl, make_jnp_primitive
 from jax2onnx.plugins.plugin_system import PrimitiveLeafPlugin, register_primitive
 
-
 _HANNING_PRIM: Final = make_jnp_primitive("jax.numpy.hanning")
 _HAMMING_PRIM: Final = make_jnp_primitive("jax.numpy.hamming")
 _BLACKMAN_PRIM: Final = make_jnp_primitive("jax.numpy.blackman")
@@ -130,13 +129,18 @@ class _WindowBasePlugin(PrimitiveLeafPlugin):
         final_result = result
         if self._AFFINE_SCALE_BIAS is not None:
             scale_val, bias_val = self._AFFINE_SCALE_BIAS
+            # Materialise the correction in the precision of the window itself:
+            # a float32 payload would be widened to DOUBLE with its rounding error.
+            affine_dtype = (
+                np.float64 if target_enum == ir.DataType.DOUBLE else np.float32
+            )
             scale_const = ctx.builder.add_initializer_from_scalar(
                 name=ctx.fresh_name(f"{self._FUNC_NAME}_scale"),
-                value=np.asarray(scale_val, dtype=np.float32),
+                value=np.asarray(scale_val, dtype=affine_dtype),
             )
             bias_const = ctx.builder.add_initializer_from_scalar(
                 name=ctx.fresh_name(f"{self._FUNC_NAME}_bias"),
-                value=np.asarray(bias_val, dtype=np.float32),
+                value=np.asarray(bias_val, dtype=affine_dtype),
             )
             scaled = ctx.builder.Mul(
                 result,
